@@ -226,7 +226,7 @@ pub fn main(args: &[String]) {
         let mut m = if c["kind"] == "grid" {
             check_grid(c, &skipped, &weak)
         } else if fixed {
-            check_history(i, c)
+            check_history(mix(i), c)
         } else {
             None
         };
